@@ -19,7 +19,11 @@ class Namer(object):
     def leaf(self, small=False):
         name = "l{0}".format(self.n)
         self.n += 1
-        self.leaves.append((name, "bool" if small else LEAF_T))
+        # at most two five-way union leaves per obligation (5^k type combinations);
+        # further leaves rotate through the single primitive types
+        wide = sum(1 for _, t in self.leaves if t == LEAF_T)
+        typ = LEAF_T if wide < 2 else ("int", "str", "Optional[bool]", "float")[self.n % 4]
+        self.leaves.append((name, "bool" if small else typ))
         return ("leaf", name)
 
 
